@@ -133,7 +133,10 @@ Close Scope Q_scope.
 Open Scope Z_scope.
 
 (* A tensor's content: a shape code and a data identifier (data 0 = the all-zero tensor).  A gaze is a
-   point of a finite grid.  Tensors and gaze lists live in a heap so that aliasing is expressible. *)
+   point of a finite grid.  Tensors and gaze lists live in a heap so that aliasing is expressible.
+   A configuration code stands for the remaining arguments that select the pooling map
+   (alpha, real_image_width, real_viewing_distance, mode, equi); code 0 is what an object that has
+   never filled its cache falls back to. *)
 Definition content := (Z * Z)%type.          (* (shape code, data id) *)
 Definition gaze := (Z * Z)%type.
 Definition c_shape (c : content) : Z := fst c.
@@ -148,63 +151,74 @@ Fixpoint set_nth {A} (l : list A) (n : nat) (v : A) : list A :=
 
 (* what a caller can do between and with calls *)
 Inductive op :=
-| Call (img tgt g : nat)                 (* loss(image, target, gaze = list object g) *)
+| Call (img tgt g : nat) (cfg : Z)       (* loss(image, target, gaze = list object g) ; for RadiallyVaryingBlur.blur
+                                            itself: blur(image, <cfg arguments>, centre = list object g) *)
 | SetGaze (g : nat) (v : gaze)           (* gaze[0], gaze[1] = v    : the list is edited in place *)
 | SetData (t : nat) (d : Z).             (* t.copy_(other tensor)   : the tensor is edited in place *)
 Definition apply_env (e : env) (o : op) : env :=
   match o with
-  | Call _ _ _ => e
+  | Call _ _ _ _ => e
   | SetGaze g v => {| e_tensor := e_tensor e; e_gaze := set_nth (e_gaze e) g v |}
   | SetData t d => {| e_tensor := set_nth (e_tensor e) t (c_shape (tensor_at e t), d); e_gaze := e_gaze e |}
   end.
 
 (* uninterpreted results: free constructors, so two results are equal only if they were computed from
    the same arguments *)
-Inductive lod := Lod (shape : Z) (g : gaze).                 (* pooling-size map for a shape and a gaze *)
+Inductive lod := Lod (shape cfg : Z) (g : gaze).             (* pooling-size map for a shape, a configuration and a gaze *)
 Inductive stats := Stats (c : content) (l : lod).            (* pooled pyramid statistics of a tensor *)
 Inductive metamer := Metamer (c : content) (l : lod).        (* generated metamer of a tensor *)
 Inductive out :=
 | BlurOut (img tgt : content) (l : lod)
 | MetOut (img : content) (l : lod) (s : stats)
 | MseOut (img : content) (m : metamer)
+| RvbOut (img : content) (l : lod)
 | Crash.
 
-(* the caching discipline: which arguments the cache keys contain, and how they are held *)
+(* the caching discipline: which arguments the cache keys contain, how they are held, and where the
+   arguments that select the map are read from *)
 Record disc := {
   lod_copy  : bool;    (* RadiallyVaryingBlur keeps a COPY of the gaze (false: the caller's list object) *)
   key_gaze  : bool;    (* the target cache key contains the gaze *)
   key_shape : bool;    (* the target cache compares shapes before values (false: torch.eq raises on a new shape) *)
   init_none : bool;    (* an empty target cache is tested explicitly (false: zeros placeholder, so a first all-zero target is never analysed) *)
-  key_value : bool     (* MetamerMSELoss compares the target by value (false: by object identity) *)
+  key_value : bool;    (* MetamerMSELoss compares the target by value (false: by object identity) *)
+  cfg_arg   : bool     (* on a miss the map is built from the configuration ARGUMENT of the call (false: from the
+                          configuration remembered from the previous fill, e.g. `self.equi` instead of `equi`) *)
 }.
-Definition repaired : disc := {| lod_copy := true; key_gaze := true; key_shape := true; init_none := true; key_value := true |}.
-Definition legacy : disc := {| lod_copy := false; key_gaze := false; key_shape := false; init_none := false; key_value := false |}.
-Definition sound_blur (d : disc) : bool := lod_copy d.
-Definition sound_met (d : disc) : bool := lod_copy d && key_gaze d && key_shape d && init_none d.
-Definition sound_mse (d : disc) : bool := lod_copy d && key_gaze d && key_value d.
+Definition repaired : disc := {| lod_copy := true; key_gaze := true; key_shape := true; init_none := true; key_value := true; cfg_arg := true |}.
+Definition legacy : disc := {| lod_copy := false; key_gaze := false; key_shape := false; init_none := false; key_value := false; cfg_arg := true |}.
+Definition sound_rvb (d : disc) : bool := lod_copy d && cfg_arg d.
+Definition sound_blur (d : disc) : bool := lod_copy d && cfg_arg d.
+Definition sound_met (d : disc) : bool := lod_copy d && key_gaze d && key_shape d && init_none d && cfg_arg d.
+Definition sound_mse (d : disc) : bool := lod_copy d && key_gaze d && key_value d && cfg_arg d.
 
-(* ---- RadiallyVaryingBlur: LOD map cached under (shape, centre) *)
+(* ---- RadiallyVaryingBlur: LOD map cached under (shape, configuration, centre) *)
 Inductive gkey := GRef (g : nat) | GVal (v : gaze).
 Definition gkey_val (e : env) (k : gkey) : gaze := match k with GRef g => gaze_at e g | GVal v => v end.
-Definition rvb_state := option (Z * gkey * lod).
-Definition rvb_lookup (d : disc) (e : env) (s : rvb_state) (shape : Z) (g : nat) : rvb_state * lod :=
-  let fresh := Lod shape (gaze_at e g) in
-  let miss := (Some (shape, (if lod_copy d then GVal (gaze_at e g) else GRef g), fresh), fresh) in
+Definition rvb_state := option (Z * Z * gkey * lod).
+Definition rvb_lookup (d : disc) (e : env) (s : rvb_state) (shape cfg : Z) (g : nat) : rvb_state * lod :=
+  let used := if cfg_arg d then cfg else match s with Some (_, c, _, _) => c | None => 0 end in
+  let fresh := Lod shape used (gaze_at e g) in
+  let miss := (Some (shape, cfg, (if lod_copy d then GVal (gaze_at e g) else GRef g), fresh), fresh) in
   match s with
-  | Some (sh, k, l) => if (sh =? shape) && gaze_eqb (gkey_val e k) (gaze_at e g) then (s, l) else miss
+  | Some (sh, c, k, l) => if (sh =? shape) && (c =? cfg) && gaze_eqb (gkey_val e k) (gaze_at e g) then (s, l) else miss
   | None => miss
   end.
+(* RadiallyVaryingBlur.blur itself: the configuration is an argument of every call *)
+Definition rvb_step (d : disc) (e : env) (s : rvb_state) (img tgt g : nat) (cfg : Z) : rvb_state * out :=
+  let ci := tensor_at e img in
+  let '(s1, l) := rvb_lookup d e s (c_shape ci) cfg g in (s1, RvbOut ci l).
 
-(* ---- BlurLoss.__call__ *)
-Definition blur_step (d : disc) (e : env) (s : rvb_state) (img tgt g : nat) : rvb_state * out :=
+(* ---- BlurLoss.__call__ (c0: the configuration the loss object was constructed with) *)
+Definition blur_step (d : disc) (c0 : Z) (e : env) (s : rvb_state) (img tgt g : nat) (cfg : Z) : rvb_state * out :=
   let ci := tensor_at e img in let ct := tensor_at e tgt in
   if negb (c_shape ci =? c_shape ct) then (s, Crash) else
-  let '(s1, l) := rvb_lookup d e s (c_shape ct) g in
+  let '(s1, l) := rvb_lookup d e s (c_shape ct) c0 g in
   (s1, BlurOut ci ct l).
 
 (* ---- MetamericLoss.__call__ : target statistics cached *)
 Definition met_state := (option (content * gaze * option stats) * rvb_state)%type.
-Definition met_step (d : disc) (e : env) (s : met_state) (img tgt g : nat) : met_state * out :=
+Definition met_step (d : disc) (c0 : Z) (e : env) (s : met_state) (img tgt g : nat) (cfg : Z) : met_state * out :=
   let ci := tensor_at e img in let ct := tensor_at e tgt in let gv := gaze_at e g in
   if negb (c_shape ci =? c_shape ct) then (s, Crash) else
   let '(tc0, rvb) := s in
@@ -212,9 +226,9 @@ Definition met_step (d : disc) (e : env) (s : met_state) (img tgt g : nat) : met
             | None => if init_none d then None else Some ((c_shape ct, 0), gv, None)
             | Some _ => tc0 end in
   let refresh :=
-    let '(rvb1, l) := rvb_lookup d e rvb (c_shape ct) g in
+    let '(rvb1, l) := rvb_lookup d e rvb (c_shape ct) c0 g in
     let st := Stats ct l in
-    let '(rvb2, l2) := rvb_lookup d e rvb1 (c_shape ct) g in
+    let '(rvb2, l2) := rvb_lookup d e rvb1 (c_shape ct) c0 g in
     ((Some (ct, gv, Some st), rvb2), MetOut ci l2 st) in
   match tc with
   | None => refresh
@@ -222,8 +236,8 @@ Definition met_step (d : disc) (e : env) (s : met_state) (img tgt g : nat) : met
       if negb (key_shape d) && negb (c_shape c =? c_shape ct) then ((tc, rvb), Crash)
       else if content_eqb c ct && (negb (key_gaze d) || gaze_eqb kg gv) then
         match st with
-        | Some st => let '(rvb2, l2) := rvb_lookup d e rvb (c_shape ct) g in ((tc, rvb2), MetOut ci l2 st)
-        | None => let '(rvb2, _) := rvb_lookup d e rvb (c_shape ct) g in ((tc, rvb2), Crash)
+        | Some st => let '(rvb2, l2) := rvb_lookup d e rvb (c_shape ct) c0 g in ((tc, rvb2), MetOut ci l2 st)
+        | None => let '(rvb2, _) := rvb_lookup d e rvb (c_shape ct) c0 g in ((tc, rvb2), Crash)
         end
       else refresh
   end.
@@ -233,12 +247,12 @@ Inductive tkey := TRef (t : nat) | TVal (c : content).
 Definition tkey_match (e : env) (k : tkey) (t : nat) : bool :=
   match k with TRef r => Nat.eqb r t | TVal c => content_eqb c (tensor_at e t) end.
 Definition mse_state := (option (tkey * gaze * metamer) * rvb_state)%type.
-Definition mse_step (d : disc) (e : env) (s : mse_state) (img tgt g : nat) : mse_state * out :=
+Definition mse_step (d : disc) (c0 : Z) (e : env) (s : mse_state) (img tgt g : nat) (cfg : Z) : mse_state * out :=
   let ci := tensor_at e img in let ct := tensor_at e tgt in let gv := gaze_at e g in
   if negb (c_shape ci =? c_shape ct) then (s, Crash) else
   let '(mc, rvb) := s in
   let refresh :=
-    let '(rvb1, l) := rvb_lookup d e rvb (c_shape ct) g in
+    let '(rvb1, l) := rvb_lookup d e rvb (c_shape ct) c0 g in
     let m := Metamer ct l in
     ((Some ((if key_value d then TVal ct else TRef tgt), gv, m), rvb1), MseOut ci m) in
   match mc with
@@ -249,17 +263,17 @@ Definition mse_step (d : disc) (e : env) (s : mse_state) (img tgt g : nat) : mse
 
 (* ---- running a history on ONE object, and the same calls each on a FRESH object *)
 Section Run.
-Context {S : Type} (step : env -> S -> nat -> nat -> nat -> S * out) (init : S).
+Context {S : Type} (step : env -> S -> nat -> nat -> nat -> Z -> S * out) (init : S).
 Fixpoint run (e : env) (s : S) (ops : list op) : list out :=
   match ops with
   | [] => []
-  | Call i t g :: r => let '(s1, o) := step e s i t g in o :: run e s1 r
+  | Call i t g c :: r => let '(s1, o) := step e s i t g c in o :: run e s1 r
   | o :: r => run (apply_env e o) s r
   end.
 Fixpoint run_fresh (e : env) (ops : list op) : list out :=
   match ops with
   | [] => []
-  | Call i t g :: r => snd (step e init i t g) :: run_fresh e r
+  | Call i t g c :: r => snd (step e init i t g c) :: run_fresh e r
   | o :: r => run_fresh (apply_env e o) r
   end.
 Definition history_independent : Prop := forall e ops, run e init ops = run_fresh e ops.
@@ -273,63 +287,70 @@ Definition mse_init : mse_state := (None, None).
    metamer) recomputed, was the LOD map recomputed.  Observable on the implementation by counting the calls
    of the expensive helpers; compared with the code by the harness (a cache HIT of the code where the model
    recomputes means that the code's key misses an argument). *)
-Definition rvb_hit (e : env) (s : rvb_state) (shape : Z) (g : nat) : bool :=
-  match s with Some (sh, k, _) => (sh =? shape) && gaze_eqb (gkey_val e k) (gaze_at e g) | None => false end.
+Definition rvb_hit (e : env) (s : rvb_state) (shape cfg : Z) (g : nat) : bool :=
+  match s with Some (sh, c, k, _) => (sh =? shape) && (c =? cfg) && gaze_eqb (gkey_val e k) (gaze_at e g) | None => false end.
 Definition b2z (b : bool) : Z := if b then 1 else 0.
 (* [target value recomputed; LOD map recomputed] *)
-Definition blur_events (d : disc) (e : env) (s : rvb_state) (img tgt g : nat) : list Z :=
+Definition rvb_events (d : disc) (e : env) (s : rvb_state) (img tgt g : nat) (cfg : Z) : list Z :=
+  [0; b2z (negb (rvb_hit e s (c_shape (tensor_at e img)) cfg g))].
+Definition blur_events (d : disc) (c0 : Z) (e : env) (s : rvb_state) (img tgt g : nat) (cfg : Z) : list Z :=
   if negb (c_shape (tensor_at e img) =? c_shape (tensor_at e tgt)) then [0; 0]
-  else [0; b2z (negb (rvb_hit e s (c_shape (tensor_at e tgt)) g))].
-Definition met_events (d : disc) (e : env) (s : met_state) (img tgt g : nat) : list Z :=
+  else [0; b2z (negb (rvb_hit e s (c_shape (tensor_at e tgt)) c0 g))].
+Definition met_events (d : disc) (c0 : Z) (e : env) (s : met_state) (img tgt g : nat) (cfg : Z) : list Z :=
   let ct := tensor_at e tgt in let gv := gaze_at e g in
   if negb (c_shape (tensor_at e img) =? c_shape ct) then [0; 0] else
   let '(tc0, rvb) := s in
   let tc := match tc0 with None => if init_none d then None else Some ((c_shape ct, 0), gv, None) | Some _ => tc0 end in
-  let lodmiss := b2z (negb (rvb_hit e rvb (c_shape ct) g)) in
+  let lodmiss := b2z (negb (rvb_hit e rvb (c_shape ct) c0 g)) in
   match tc with
   | None => [1; lodmiss]
   | Some (c, kg, st) =>
       if negb (key_shape d) && negb (c_shape c =? c_shape ct) then [0; 0]
       else if content_eqb c ct && (negb (key_gaze d) || gaze_eqb kg gv) then [0; lodmiss] else [1; lodmiss]
   end.
-Definition mse_events (d : disc) (e : env) (s : mse_state) (img tgt g : nat) : list Z :=
+Definition mse_events (d : disc) (c0 : Z) (e : env) (s : mse_state) (img tgt g : nat) (cfg : Z) : list Z :=
   let ct := tensor_at e tgt in let gv := gaze_at e g in
   if negb (c_shape (tensor_at e img) =? c_shape ct) then [0; 0] else
   let '(mc, rvb) := s in
-  let lodmiss := b2z (negb (rvb_hit e rvb (c_shape ct) g)) in
+  let lodmiss := b2z (negb (rvb_hit e rvb (c_shape ct) c0 g)) in
   match mc with
   | None => [1; lodmiss]
   | Some (k, kg, m) => if tkey_match e k tgt && (negb (key_gaze d) || gaze_eqb kg gv) then [0; 0] else [1; lodmiss]
   end.
 Section RunEvents.
-Context {S : Type} (step : env -> S -> nat -> nat -> nat -> S * out) (events : env -> S -> nat -> nat -> nat -> list Z).
+Context {S : Type} (step : env -> S -> nat -> nat -> nat -> Z -> S * out) (events : env -> S -> nat -> nat -> nat -> Z -> list Z).
 Fixpoint run_events (e : env) (s : S) (ops : list op) : list (list Z) :=
   match ops with
   | [] => []
-  | Call i t g :: r => events e s i t g :: run_events e (fst (step e s i t g)) r
+  | Call i t g c :: r => events e s i t g c :: run_events e (fst (step e s i t g c)) r
   | o :: r => run_events (apply_env e o) s r
   end.
 End RunEvents.
-Definition machine_events (which : Z) (d : disc) (e : env) (ops : list op) : list (list Z) :=
-  if which =? 1 then run_events (blur_step d) (blur_events d) e blur_init ops
-  else if which =? 2 then run_events (met_step d) (met_events d) e met_init ops
-  else run_events (mse_step d) (mse_events d) e mse_init ops.
+(* which: 1 BlurLoss, 2 MetamericLoss, 3 MetamerMSELoss (constructed with configuration c0), 4 RadiallyVaryingBlur.blur *)
+Definition machine_events (which : Z) (d : disc) (c0 : Z) (e : env) (ops : list op) : list (list Z) :=
+  if which =? 1 then run_events (blur_step d c0) (blur_events d c0) e blur_init ops
+  else if which =? 2 then run_events (met_step d c0) (met_events d c0) e met_init ops
+  else if which =? 3 then run_events (mse_step d c0) (mse_events d c0) e mse_init ops
+  else run_events (rvb_step d) (rvb_events d) e blur_init ops.
 
 (* ---- flat encodings, for reading the results of vm_compute from the harness *)
-Definition enc_lod (l : lod) : list Z := match l with Lod sh (a, b) => [sh; a; b] end.
+Definition enc_lod (l : lod) : list Z := match l with Lod sh c (a, b) => [sh; c; a; b] end.
 Definition enc_out (o : out) : list Z :=
   match o with
   | BlurOut (si, di) (st, dt) l => [1; si; di; st; dt] ++ enc_lod l
   | MetOut (si, di) l (Stats (st, dt) l2) => [2; si; di] ++ enc_lod l ++ [st; dt] ++ enc_lod l2
   | MseOut (si, di) (Metamer (st, dt) l) => [3; si; di; st; dt] ++ enc_lod l
+  | RvbOut (si, di) l => [4; si; di] ++ enc_lod l
   | Crash => [0]
   end.
-Definition machine_run (which : Z) (d : disc) (e : env) (ops : list op) : list (list Z) :=
-  map enc_out (if which =? 1 then run (blur_step d) e blur_init ops
-               else if which =? 2 then run (met_step d) e met_init ops
-               else run (mse_step d) e mse_init ops).
-Definition machine_fresh (which : Z) (d : disc) (e : env) (ops : list op) : list (list Z) :=
-  map enc_out (if which =? 1 then run_fresh (blur_step d) blur_init e ops
-               else if which =? 2 then run_fresh (met_step d) met_init e ops
-               else run_fresh (mse_step d) mse_init e ops).
+Definition machine_run (which : Z) (d : disc) (c0 : Z) (e : env) (ops : list op) : list (list Z) :=
+  map enc_out (if which =? 1 then run (blur_step d c0) e blur_init ops
+               else if which =? 2 then run (met_step d c0) e met_init ops
+               else if which =? 3 then run (mse_step d c0) e mse_init ops
+               else run (rvb_step d) e blur_init ops).
+Definition machine_fresh (which : Z) (d : disc) (c0 : Z) (e : env) (ops : list op) : list (list Z) :=
+  map enc_out (if which =? 1 then run_fresh (blur_step d c0) blur_init e ops
+               else if which =? 2 then run_fresh (met_step d c0) met_init e ops
+               else if which =? 3 then run_fresh (mse_step d c0) mse_init e ops
+               else run_fresh (rvb_step d) blur_init e ops).
 Close Scope Z_scope.
